@@ -145,7 +145,7 @@ pub fn property() -> Property {
                 name: "programs",
                 plan: |t| match t {
                     Tier::Quick => Plan::Random { cases: 160_000, max_len: 600 },
-                    Tier::Thorough => Plan::Random { cases: 3_000_000, max_len: 800 },
+                    Tier::Thorough => Plan::Random { cases: 6_000_000, max_len: 800 },
                 },
                 case: case_small,
                 min_classes: &[("two-block-kinds-nested", 2000), ("zero-iteration-loop", 2000), ("empty-body", 2000), ("canonical-name-keyword", 2000), ("block-specific-end", 2000), ("same-block-executed-3-times", 1000), ("elseif-chain", 2000), ("x-y-x-nesting", 300), ("mixed-generic-and-specific-end", 2000)],
@@ -154,7 +154,7 @@ pub fn property() -> Property {
                 name: "large-programs",
                 plan: |t| match t {
                     Tier::Quick => Plan::Random { cases: 16_000, max_len: 2500 },
-                    Tier::Thorough => Plan::Random { cases: 400_000, max_len: 3000 },
+                    Tier::Thorough => Plan::Random { cases: 800_000, max_len: 3000 },
                 },
                 case: case_large,
                 min_classes: &[("depth-4-or-more", 200)],
